@@ -164,6 +164,8 @@ theorem spec_agree (xsd11 : Bool) : SpecAgree tables (specTables xsd11) xsd11 :=
         simp only [specTables]
         exact List.getElem?_eq_none (by rw [tables_shape.2.2.2.1]; omega)
       simp [h1, specNumeric, h2]
+  · rfl
+  · rfl
 
 /-! ### the property theorems instantiated with the live tables -/
 
@@ -178,12 +180,11 @@ theorem restriction_trans_live (t1 t2 t3 : Ty)
     (h1 : isRestriction tables t1 t2 = true) (h2 : isRestriction tables t2 t3 = true) :
     isRestriction tables t1 t3 = true := restriction_trans tables atomic_sub_trans t1 t2 t3 h1 h2
 
-/-- soundness for matching, for the live tables (see `restriction_sound_partial`) -/
+/-- soundness for matching, for the live tables (see `restriction_sound`) -/
 theorem restriction_sound_live (xsd11 : Bool) (T S : Ty) (v : List Item)
-    (hm : matchSt tables xsd11 true S v = .ok true) (hR : isRestriction tables T S = true)
-    (hF : (T.isTypedFunc && hasMapArray v) = false) :
+    (hm : matchSt tables xsd11 true S v = .ok true) (hR : isRestriction tables T S = true) :
     matchSt tables xsd11 true T v = .ok true :=
-  restriction_sound_partial tables atomic_sub_trans inst_up xsd11 T S v hm hR hF
+  restriction_sound tables atomic_sub_trans inst_up xsd11 T S v hm hR
 
 def ixOf (x : XsdT) : Nat := atomXsd.idxOf x
 def clsOf (x : XsdT) : Nat := clsXsd.idxOf x
@@ -195,22 +196,31 @@ def cexV : List Item := [.array [[.atom tables.intCls]]]
 def cexAttr : Ty := .leaf (.kind .attribute .none) .one
 def cexElem : List Item := [.node .element 1 [2] false]
 
-/-- kernel-checked counter-example to the full `restriction_sound` (finding F18i): the array `[1]` matches
-`function(xs:integer) as item()*`, that type is a restriction of `function(xs:int) as item()*`
-(xs:int ⊑ xs:integer, contravariant), but the array does not match the latter, because
-`XPathArray.match_function_test` tests the parameter type with the integer 1 -/
-theorem restriction_sound_counterexample :
+/-- the former counter-example to soundness (finding F18i, repaired): the array `[1]` matches
+`function(xs:integer) as item()*`, that type is a restriction of `function(xs:int) as item()*`, and now the array
+matches the latter as well; a map with a non-integer value is no `function(xs:integer) as xs:integer?` -/
+theorem f18i_regression :
     matchSt tables false true cexS cexV = .ok true ∧ isRestriction tables cexT cexS = true ∧
-      matchSt tables false true cexT cexV = .ok false ∧ (cexT.isTypedFunc && hasMapArray cexV) = true := by
+      matchSt tables false true cexT cexV = .ok true ∧
+      matchSt tables false true (.func (.cons (tyAtom .integer .one) .nil) (tyAtom .integer .opt))
+        [.map [(tables.intCls, [.atom tables.intCls]), (clsOf .string, [.atom (clsOf .string)])]] = .ok false := by
   decide +kernel
 
-/-- kernel-checked counter-example to the full `instance_of_eq_match` (finding F18d): an element with an
-attribute is an `instance of attribute()` for the kind-test token, not for `match_sequence_type`, and
-not for XPath 3.1 -/
-theorem instance_of_counterexample :
-    instanceOf tables false cexAttr cexElem = .ok true ∧ matchSt tables false true cexAttr cexElem = .ok false ∧
-      specMatch (specTables false) (isRestriction tables) cexAttr cexElem = false ∧
-      trigF18d cexAttr cexElem = true := by decide +kernel
+/-- the former counter-example to `instance_of_eq_match` (finding F18d, repaired): an element with an attribute is
+no `instance of attribute()` -/
+theorem f18d_regression :
+    instanceOf tables false cexAttr cexElem = .ok false ∧ matchSt tables false true cexAttr cexElem = .ok false ∧
+      instanceOf tables false (.leaf (.kind .namespace .none) .one) cexElem = .ok false ∧
+      instanceOf tables false (.leaf .anyNode .one) [.node .document 0 [1] false] = .ok true := by decide +kernel
+
+/-- kernel-checked counter-example to the full `instance_of_eq_match` inside the remaining excluded region
+(finding F18k): `element(*, xs:untyped)` — the matcher accepts the untyped element, the kind-test token of
+`instance of` does not (it excludes the `*` case), XPath accepts it -/
+theorem instance_of_type_argument_counterexample :
+    let t : Ty := .leaf (.kindT .element .wild .untyped false) .one
+    matchSt tables false true t cexElem = .ok true ∧ instanceOf tables false t cexElem = .ok false ∧
+      specMatch (specTables false) (isRestriction tables) t cexElem = true ∧ t.hasTypeArg = true := by
+  decide +kernel
 
 /-- the repaired defects F18a / F18a2 stay repaired in the model: a type without indicator does not accept
 an optional or empty candidate, a typed function test with optional return type does not accept
